@@ -5,7 +5,7 @@ cd /verif
 fail=0
 for d in refactors/C*-*; do
   [ -f $d/patch.diff ] || continue
-  git -C /repo apply $d/patch.diff 2>/dev/null || { echo "$d: does not apply to the current /repo"; continue; }
+  git -C /repo apply /verif/$d/patch.diff 2>/dev/null || { echo "$d: does not apply to the current /repo"; continue; }
   res=""
   for i in 01 02 03 04 05 06 07 08 09 10 11 12 13 14 15 16 17 18 19 20; do ( ./check C$i > /tmp/.rr_$i.log 2>&1; echo $? > /tmp/.rr_$i.rc ) & done; wait
   git -C /repo checkout -q -- .
